@@ -4,7 +4,9 @@
 // connect with any content / disconnect within the reorg limit / client registration
 // with any valid hint / cancellation / historical-rescan completion / notifier
 // stop+start on the same persisted hint cache / a chain op inside the hint-read window
-// of Register* / a client op between ConnectTip and NotifyHeight) on the real
+// of Register* / a client op between ConnectTip and NotifyHeight; plus, from every
+// state with a persisted hint, the terminal suffix "notifier goes down, the event lands
+// in the next block", see world.Probe) on the real
 // chainntnfs.TxNotifier and the real channeldb.HeightHintCache, judged after every
 // notifier call by a reference chain and a per-client view (see world_test.go).
 //
@@ -45,6 +47,8 @@ type levelWorld struct {
 	w        *world
 	stage    int
 	idx      int
+	act      string // the level's single real action
+	key      string // stage-2 key, computed once (the state is final until the probes run)
 }
 
 func (l *levelWorld) Enabled() []string {
@@ -82,7 +86,7 @@ func (l *levelWorld) Do(a string) error {
 		atomic.AddInt64(&l.sp.replaySteps, int64(len(l.frontier[i].hist)))
 		return nil
 	case 1:
-		l.stage = 2
+		l.stage, l.act = 2, a
 		atomic.AddInt64(&l.sp.transitions, 1)
 		return l.w.Do(a)
 	}
@@ -96,7 +100,34 @@ func (l *levelWorld) Key() string {
 	case 1:
 		return "F" + strconv.Itoa(l.idx)
 	}
-	return "S" + l.w.Key()
+	if l.key != "" {
+		return l.key
+	}
+	k := "S" + l.w.Key()
+	l.key = k
+	// Every execution of a level passes here exactly once with its final state. Which of
+	// several executions arriving at one key comes first is scheduling-dependent; the
+	// representative history of a new state (smallest (frontier index, action) among all
+	// arrivals of its discovery level) and "some arrival was non-trivial" are not, which
+	// makes the next frontier, hence every count of the run, reproducible.
+	var nt bool
+	l.w.in(func() { nt = l.w.nontrivial && !l.w.dead })
+	sp := l.sp
+	sp.mu.Lock()
+	a, ok := sp.lvl[k]
+	if !ok {
+		if _, old := sp.seen[k]; !old {
+			a = &arrival{idx: l.idx, act: l.act}
+			sp.lvl[k] = a
+		}
+	} else if l.idx < a.idx || (l.idx == a.idx && l.act < a.act) {
+		a.idx, a.act = l.idx, l.act
+	}
+	if a != nil && nt {
+		a.nt = true
+	}
+	sp.mu.Unlock()
+	return k
 }
 
 func (l *levelWorld) Terminal() {}
@@ -107,6 +138,13 @@ func (l *levelWorld) Close() {
 	}
 }
 
+// arrival summarises the executions of one level that ended in one (new) state.
+type arrival struct {
+	idx int // smallest (frontier index, action) that reached it
+	act string
+	nt  bool // some arrival was non-trivial
+}
+
 // spaceRun is the exploration of one space.
 type spaceRun struct {
 	p      Params
@@ -115,16 +153,19 @@ type spaceRun struct {
 
 	mu          sync.Mutex
 	seen        map[string]struct{}
+	lvl         map[string]*arrival // per key first discovered in the current level: its arrivals
 	nontrivial  int64
 	transitions int64
 	replays     int64
 	replaySteps int64
+	probes      int64
 	perDepth    []int64
 	samples     [][]string
 }
 
 type spaceResult struct {
 	States, Transitions, Replays, ReplaySteps, Nontrivial int64
+	Probes                                                int64
 	PerDepth                                              []int64
 	DepthDone                                             int
 	Exhaustive                                            bool
@@ -135,7 +176,7 @@ type spaceResult struct {
 
 func runSpace(p Params, st *Stats, report reportFn, deadline time.Time, stop func() bool) spaceResult {
 	t0 := time.Now()
-	sp := &spaceRun{p: p, st: st, report: report, seen: map[string]struct{}{}}
+	sp := &spaceRun{p: p, st: st, report: report, seen: map[string]struct{}{}, lvl: map[string]*arrival{}}
 	res := spaceResult{Exhaustive: true}
 	// initial state
 	w0, err := newWorld(theT, p, report, st)
@@ -149,8 +190,8 @@ func runSpace(p Params, st *Stats, report reportFn, deadline time.Time, stop fun
 	sp.perDepth = []int64{1}
 	for depth := 0; depth < p.Depth && len(frontier) > 0; depth++ {
 		var (
-			next   []node
-			nextMu sync.Mutex
+			next    []node
+			newKeys []string // keys first discovered in this level (guarded by sp.mu)
 		)
 		fr := frontier
 		r := explore.Run(explore.Options{
@@ -163,10 +204,8 @@ func runSpace(p Params, st *Stats, report reportFn, deadline time.Time, stop fun
 				if l.stage != 2 {
 					return
 				}
-				var (
-					dead, nt bool
-				)
-				l.w.in(func() { dead, nt = l.w.dead, l.w.nontrivial })
+				var dead bool
+				l.w.in(func() { dead = l.w.dead })
 				if dead {
 					return
 				}
@@ -175,18 +214,17 @@ func runSpace(p Params, st *Stats, report reportFn, deadline time.Time, stop fun
 				_, dup := sp.seen[k]
 				if !dup {
 					sp.seen[k] = struct{}{}
-					if nt {
-						sp.nontrivial++
-					}
+					newKeys = append(newKeys, k)
 				}
 				sp.mu.Unlock()
 				if dup {
 					return
 				}
-				h := append(append(make([]string, 0, len(fr[l.idx].hist)+1), fr[l.idx].hist...), hist[len(hist)-1])
-				nextMu.Lock()
-				next = append(next, node{hist: h})
-				nextMu.Unlock()
+				// terminal suffix probes "stop ; con:X" of this new state (world_test.go);
+				// the level world has no further action, so the world is closed next
+				if n := l.w.Probe(); n > 0 {
+					atomic.AddInt64(&sp.probes, int64(n))
+				}
 			},
 		}, func(hist []string, v any) {
 			h := hist
@@ -198,6 +236,14 @@ func runSpace(p Params, st *Stats, report reportFn, deadline time.Time, stop fun
 			first := strings.SplitN(fmt.Sprint(v), "\n", 2)[0]
 			report("harness-panic", fmt.Sprintf("panic outside a notifier call: %s", first), h, p)
 		})
+		for _, k := range newKeys {
+			a := sp.lvl[k]
+			if a.nt {
+				sp.nontrivial++
+			}
+			next = append(next, node{hist: append(append(make([]string, 0, len(fr[a.idx].hist)+1), fr[a.idx].hist...), a.act)})
+		}
+		sp.lvl = map[string]*arrival{}
 		if !r.Exhaustive {
 			res.Exhaustive = false
 			res.Cap = fmt.Sprintf("%s at depth %d of %s", r.CapHit, depth+1, p.Name)
@@ -218,6 +264,7 @@ func runSpace(p Params, st *Stats, report reportFn, deadline time.Time, stop fun
 	res.Replays = sp.replays
 	res.ReplaySteps = sp.replaySteps
 	res.Nontrivial = sp.nontrivial
+	res.Probes = sp.probes
 	res.PerDepth = sp.perDepth
 	res.Samples = sp.samples
 	res.Wall = time.Since(t0).Seconds()
@@ -265,6 +312,16 @@ func spaces(thorough bool) []Params {
 		add(Params{Name: "stale-conf-txid-n1", Clients: []ClientSpec{conf("txid", 1)}, Contents: confOnly, Hints: []string{"old"}, Limit: 4, Depth: 9, Stale: true})
 		add(Params{Name: "stale-spend-op", Clients: []ClientSpec{{Kind: "op"}}, Contents: spendOnly, Hints: []string{"old"}, Limit: 4, Depth: 9, Stale: true})
 	}
+	// persisted-hint safety across TWO notifier lifetimes after the first: one restart to obtain
+	// a persisted hint whose request has a pending rescan (hints are only written for requests
+	// whose rescan completed, so "persisted hint + pending rescan" needs a previous lifetime),
+	// a second one so that the event can land in a reorged range while the notifier is down.
+	// One client keeps the depth such histories need (9: reg con stop start reg dis dis stop con)
+	// cheap. (The thorough tier has conf-txid-n1-restarts2 at depth 12 for the confirmation side.)
+	if !thorough {
+		add(Params{Name: "hint-conf-txid-n1-restarts2", Clients: []ClientSpec{conf("txid", 1)}, Contents: confOnly, Hints: allHints, Limit: 4, Depth: 10, Restarts: 2})
+	}
+	add(Params{Name: "hint-spend-op-restarts2", Clients: []ClientSpec{{Kind: "op"}}, Contents: spendOnly, Hints: allHints, Limit: 4, Depth: d(9, 11), Restarts: 2})
 	// shortest reorg limit: pruning (Done) and final blocks reached within few ops
 	add(Params{Name: "conf-txid-n1+n2-limit2", Clients: []ClientSpec{conf("txid", 1), conf("txid", 2)}, Contents: confOnly, Hints: allHints, Limit: 2, Depth: d(7, 10), Restarts: 1})
 	// two spend clients of the same outpoint, conflicting spenders
@@ -437,7 +494,7 @@ func TestC14(t *testing.T) {
 			caps = append(caps, r.Cap)
 		}
 		per = append(per, map[string]any{"space": p.Name, "params": p, "states": r.States, "transitions": r.Transitions,
-			"nontrivial_states": r.Nontrivial, "states_per_depth": r.PerDepth, "depth_completed": r.DepthDone,
+			"nontrivial_states": r.Nontrivial, "suffix_probes": r.Probes, "states_per_depth": r.PerDepth, "depth_completed": r.DepthDone,
 			"exhaustive": r.Exhaustive, "wall_s": r.Wall})
 		for _, h := range r.Samples {
 			if len(samples) < 6 {
@@ -478,7 +535,8 @@ func TestC14(t *testing.T) {
 		"distinct_nontrivial":           nont,
 		"rule": "state = canonical key (reference chain + persisted hint cache + client views + outstanding rescans + structural digest of the live TxNotifier); " +
 			"transition = one operation executed on the real TxNotifier/HeightHintCache from a discovered state; every operation sequence up to the per-space depth is covered (level-synchronous BFS, shortest histories); " +
-			"distinct_nontrivial = distinct states whose reaching operation delivered a notification to a client or evaluated clause (ii)/(iv) with a true antecedent",
+			"distinct_nontrivial = distinct states that some operation executed at their discovery depth reached while delivering a notification to a client or evaluating clause (ii)/(iv) with a true antecedent; " +
+			"suffix probes (not counted in states/transitions): every distinct state with the notifier up, no NotifyHeight outstanding and a persisted hint is additionally extended by 'stop ; con:X' for every connectable non-empty block content X, executed on the real notifier/cache and judged by the same clauses, regardless of the space's restart budget",
 		"exhaustive":          len(caps) == 0,
 		"caps_hit":            append([]string{}, caps...),
 		"spaces":              len(sps),
@@ -495,6 +553,8 @@ func TestC14(t *testing.T) {
 			"clause_iv_entries_checked": st.IVChecked.Load(), "clause_iv_event_on_chain": st.IVBound.Load(),
 			"cancels": st.Cancels.Load(), "stops": st.Stops.Load(), "offline_connects": st.OfflineConnects.Load(),
 			"notifier_calls_under_quiescence_watchdog": st.NotifierCalls.Load(), "hint_commits": st.HintCommits.Load(),
+			"suffix_probe_states": st.ProbeStates.Load(), "suffix_probe_states_skipped_no_persisted_hint": st.ProbeSkipped.Load(),
+			"suffix_probes_executed_stop_then_connect": st.ProbeSuffixes.Load(),
 		},
 		"stale_scan_candidates": map[string]any{"count": st.StaleCandidates.Load(), "examples": candidates,
 			"note": "rescan result computed at dispatch time and delivered after later chain ops (thorough tier only); analysed by hand, never auto-reported"},
@@ -503,6 +563,7 @@ func TestC14(t *testing.T) {
 		"universe: heights 100..106, one watched tx T (txid+script / script-only), one outpoint O with two conflicting spenders; numConfs 1..3; reorg safety limit 3 or 4; no block buried by the limit below the highest tip seen is disconnected",
 		"clients read their channels promptly (drained after every notifier call); client height hints are valid promises (the event is not on the active chain below the hint at registration time)",
 		"while the notifier is down the chain only grows, and after a start no block is disconnected until every request with a persisted hint has registered again (a notifier cannot lower the hint of a request it does not know; lnd documents the limitation at channeldb.CacheConfig.QueryDisable)",
+		"the per-space restart budget bounds the search only: the terminal suffix probes stop the notifier in any state (a node can go down at any time)",
 		"historical rescans are computed on the active chain at delivery time (fresh); the stale-scan variant is explored in the thorough tier under a candidate label only",
 		"TxNotifier methods are atomic under its mutex except the hint-cache read of Register*, which is explored explicitly (window spaces); data races are outside this check",
 		"canonical key drops client ids (uint64), closures and the mutex of the notifier; everything else it stores is in the key")
